@@ -219,6 +219,25 @@ def verbatim_keywords(g, objs, kws):
     return out
 
 
+def source_undriven(obj, n):
+    """the Verilog net n of obj's module is a local wire that no child drives in the py4hw design itself"""
+    if obj is None:
+        return False
+    R = rtl()
+    from py4hw.base import Wire
+    try:
+        ws = [w for w in R.collectLocalWires(obj) if isinstance(w, Wire) and 'w_' + w.name == n]
+    except Exception:
+        return False
+    if not ws:
+        return False
+    for w in ws:
+        for c in obj.children.values():
+            if any(p.wire is w for p in list(c.outPorts) + list(c.inOutPorts)):
+                return False
+    return True
+
+
 def aliased_ports(obj):
     """some block of the hierarchy has two ports on one wire"""
     ws = [id(p.wire) for p in list(obj.inPorts) + list(obj.outPorts) + list(obj.inOutPorts) if p.wire is not None]
@@ -492,6 +511,11 @@ class Pipeline:
             if not folded:
                 prim.append(r)
         for r in prim:
+            if r['err'] == 'driverCount' and r['fields'][2] == '0' and source_undriven(first.get(r['module']), r['name']):
+                # precondition of the property: the SOURCE design leaves this local wire without any driver (py4hw's own
+                # integrity check rejects it); the emitter faithfully declares an undriven net — not attributed to the emitter
+                res.hist('excused', 'local wire undriven in the source design')
+                continue
             fail(res, f"emitted design is not well formed: {r['err']} {' '.join(r['fields'])}", dict(r, text=ctx['text'][:1200]))
 
 
@@ -587,6 +611,31 @@ def stream_names(pipe, res, rng, kws, tier):
         tryadd(pipe, res, lambda: CD.named_design('a', 'r', 't', ['u1', 'u2'], clocked=True, clk_name=cn))
     for cls in ['Top', 'table', 'wire', 'module', 'Inv', 'uwire']:
         tryadd(pipe, res, lambda: CD.named_design('a', 'r', 't', ['u1', 'u2'], cls_name=cls))
+
+
+def stream_aliaslocal(pipe, res, rng, tier):
+    """one local wire on two ports of one child, in every creation order relative to the wire's driver and to other users
+    (consumer before driver, driver before consumer, no driver at all)"""
+    import itertools
+    q = tier == 'quick'
+    cons = ['mul', 'add', 'and', 'two']
+    sets = [[c] for c in cons] + [['drv', c] for c in cons]
+    sets += [['drv', c, o] for c in cons for o in (['buf', 'add2'] if q else ['buf', 'add2'] + [x for x in cons if x != c])]
+    if not q:
+        sets += [['drv', 'mul', 'add', 'and'], ['drv', 'two', 'add', 'add2'], ['mul', 'add'], ['two', 'buf'], ['drv', 'mul', 'add', 'and', 'two']]
+    seen = set()
+    for st in sets:
+        perms = list(itertools.permutations(st))
+        if len(perms) > 24:
+            perms = rng.fork(tuple(st)).shuffle(perms)[:40]
+        for order in perms:
+            for w in ([4] if q else [1, 4, 33]):
+                key = (order, w)
+                if key in seen:
+                    continue
+                seen.add(key)
+                tryadd(pipe, res, lambda: CD.alias_local_design(order, w))
+        pipe.maybe_flush()
 
 
 def stream_reuse(pipe, res, rng, tier):
@@ -844,6 +893,7 @@ def main(res, tier, rng, replay):
     q = tier == 'quick'
     pipe.after += [run_corpus(pipe, res), names_oracle(pipe, res, rng, kws, tier)]
     stream_reuse(pipe, res, rng.fork('reuse'), tier)
+    stream_aliaslocal(pipe, res, rng.fork('aliaslocal'), tier)
     stream_names(pipe, res, rng.fork('names'), kws, tier)
     stream_behav(pipe, res, rng.fork('behav'), tier)
     stream_params(pipe, res, rng.fork('params'), tier)
